@@ -127,14 +127,27 @@ def interplay_families(holes, which="ABCD"):
                 if s == 2 * n:
                     return ["Pi", "Lambda"]
                 return ann if s % 2 == 0 else dfn
-            if d == 3:
-                return ["Variable", "Integer"] if s == 0 else ["Variable", "Integer", "Type"] + (["Pi"] if n == 2 else [])
-            return ["Variable", "Integer"]      # (d : v) => d -> int
+            return ["Variable", "Integer"] if s == 0 else ["Variable", "Integer", "Type"]
         return alpha
     if "A" in which:
         out.append(("aliases then a binder: a group of 1 leaf definition whose body is a function (type)", group_then_binder(1), 7))
     if "B" in which:
-        out.append(("aliases then a binder: a group of 2 leaf definitions whose body is a function (type), possibly of a function type", group_then_binder(2), 11))
+        out.append(("aliases then a binder: a group of 2 leaf definitions whose body is a function (type)", group_then_binder(2), 9))
+
+    def aliases_then_function_type(node):
+        # v = int; t = type; (d : v) => d -> int
+        d, s = node.depth, node.slot
+        if d == 1:
+            return ["Let2"]
+        if d == 2:
+            if s == 4:
+                return ["Lambda"]
+            return (["Unifier"] if holes else ["Type"]) if s % 2 == 0 else ["Type", "Integer"]
+        if d == 3:
+            return ["Variable"] if s == 0 else ["Pi"]
+        return ["Variable"] if s == 0 else ["Variable", "Integer"]
+    if "F" in which:
+        out.append(("two type aliases, then a function whose body is a function type over its parameter", aliases_then_function_type, 11))
 
     def group_under_binder(base):
         # (a : type) => (t = a; u = 5; (x : t) => x)        [base = depth of the outer lambda]
